@@ -391,6 +391,49 @@ def check_uses_dask(rep, ddf, frames, meta):
                           {**meta, 'got': gotp, 'want': wantp})
 
 
+def check_parquet_bounds(rep, df, cols, gnames, tmp, tag):
+    """a dataset of 4 partitions whose geometry columns have different per-partition extents:
+    read_parquet_dask(geometry=g, bounds=box) loads exactly the partitions whose extent of g meets
+    the box, hence every row whose geometry in g intersects it"""
+    import dask.dataframe as dd
+    from spatialpandas.io import read_parquet_dask
+    rng = rep.rng
+    path = os.path.join(tmp, f'bounds{tag}.parq')
+    dd.from_pandas(df, npartitions=4).to_parquet(path)
+    for g in gnames:
+        full = read_parquet_dask(path, geometry=g)
+        pframes = [full.partitions[i].compute(scheduler='synchronous') for i in range(full.npartitions)]
+        whole = df
+        boxes = [(0, 1), (3, 4), (6, 7)] + [tuple(sorted((rng.randint(0, U.NROWS - 1), rng.randint(0, U.NROWS - 1))))
+                                             for _ in range(2)]
+        for t0, t1 in boxes:
+            box = U.box_over(t0, t1)                      # (x0, x1, y0, y1)
+            r = read_parquet_dask(path, geometry=g, bounds=(box[0], box[2], box[1], box[3]))
+            got_frame = r.compute(scheduler='synchronous')
+            got = sorted(got_frame['v'].tolist())
+            sel = U.partitions_meeting(pframes, g, box)
+            want = sorted(v for i in sel for v in pframes[i]['v'].tolist())
+            must = sorted(whole['v'][U.rows_in_box(whole, g, box)].tolist())
+            rep.evaluations += 1
+            if any(U.partitions_meeting(pframes, h, box) != sel for h in gnames if h != g):
+                rep.nontrivial(('parquet-bounds', repr(cols), g, t0, t1))
+            meta = {'kind': 'parquet-bounds', 'columns': cols, 'geometry': g, 'box': list(box),
+                    'npartitions': len(pframes),
+                    'repro': 'dd.from_pandas(GeoDataFrame(c20_util.build_dict(columns)), 4).to_parquet(p); '
+                             'read_parquet_dask(p, geometry=g, bounds=(x0, y0, x1, y1)).compute().v',
+                    'got_rows': got, 'want_rows': want, 'rows_intersecting': must,
+                    'partitions_by_column': {h: U.partitions_meeting(pframes, h, box) for h in gnames}}
+            if r._meta._geometry != g or (len(got_frame) and getattr(got_frame, '_geometry', None) != g):
+                rep.violation('uses:parquet-bounds', f'read_parquet_dask(geometry={g!r}, bounds=..) is not active on {g!r}',
+                              meta)
+                return
+            if got != want or not set(must) <= set(got):
+                rep.violation('uses:parquet-bounds',
+                              f'read_parquet_dask(geometry={g!r}, bounds=box) did not prune the partitions by the '
+                              f'extents of the active column', meta)
+                return
+
+
 # --------------------------------------------------------------------------
 # Dask sequences
 # --------------------------------------------------------------------------
@@ -563,7 +606,7 @@ def run(rep):
                 'missing label>); after every step type/_geometry/.geometry.name/columns of the result, '
                 'of the meta, of each partition and of compute() are compared with the model evaluated '
                 'in Coq; (5) uses: cx / build_sindex / sjoin / Dask cx / partition bounds / Hilbert '
-                'packing compared with the answer computed from the active column alone; a case is '
+                'packing / read_parquet_dask(geometry=g, bounds=box) partition pruning compared with the answer computed from the active column alone; a case is '
                 'non-trivial when another geometry column would have given a different answer (uses) '
                 'or when the frame has >= 2 geometry columns and the active one is not the first '
                 '(state sequences)')
@@ -785,6 +828,10 @@ def run(rep):
                         check_uses_dask(rep, last, frames,
                                         {'columns': cols, 'geometry': g, 'npartitions': r.npartitions,
                                          'dask_ops': [U.strip_private(o) for o in done], 'geoms': gl})
+            # read_parquet_dask(geometry=g, bounds=box) prunes the partitions by the recorded
+            # extents of the ACTIVE column g
+            if len(gnames) >= 2:
+                check_parquet_bounds(rep, df, cols, gnames, tmp, s)
             # pack_partitions_to_parquet keys on the active column
             if s < (2 if quick else 12):
                 out = os.path.join(tmp, f'packed{s}.parq')
@@ -978,6 +1025,18 @@ def replay(rep, rp):
             print('impl :', first, res)
             print('model:', C.coq_eval(IMPORTS, f'{fn} {C.coq(case)}'))
             return not bad
+        finally:
+            shutil.rmtree(tmp, ignore_errors=True)
+    if kind == 'parquet-bounds':
+        from spatialpandas import GeoDataFrame
+        tmp = tempfile.mkdtemp(prefix='sp_c20_')
+        try:
+            r2 = C.Report(rep.pid, rep.tier, rep.seed)
+            df = GeoDataFrame(U.build_dict(cols))
+            check_parquet_bounds(r2, df, cols, [n for n, k, _ in cols if k is not None], tmp, 0)
+            for v in r2.violations:
+                print('still:', v['signature'], v['what'], v['replay'].get('got_rows'), v['replay'].get('want_rows'))
+            return not r2.violations
         finally:
             shutil.rmtree(tmp, ignore_errors=True)
     # uses / corpus violations: re-run the corpus and the uses checks of a fresh run
